@@ -303,3 +303,6 @@ Definition arrivals_of (ls : list flabel) : list N :=
   omap (λ l, match l with Arrive e _ => Some e | _ => None end) ls.
 Definition is_cancel (l : flabel) : bool := match l with Cancel _ => true | _ => false end.
 Definition is_arrive (l : flabel) : bool := match l with Arrive _ _ => true | _ => false end.
+(* the steps the handlers take on their own: not an arrival, not a cancellation, not a Wait *)
+Definition internal (l : flabel) : bool :=
+  match l with Arrive _ _ | Cancel _ | WaitCloud | WaitBackend => false | _ => true end.
